@@ -49,7 +49,7 @@ def main():
             open(p, "w").write(s)
         if not ok:
             results.append((m["id"], m["name"], "NOPATTERN", 0)); continue
-        env = dict(os.environ, VERIF_REPO=WT)
+        env = dict(os.environ, VERIF_REPO=WT, VERIF_EVIDENCE_DIR="/tmp/verif-sens-evidence", VERIF_REPLAY_OUT="/tmp/verif-sens-replays")
         t0 = time.time()
         r = subprocess.run([os.path.join(VERIF, "check"), m["id"], "--tier", tier], cwd=VERIF, env=env, capture_output=True, text=True)
         dt = time.time() - t0
@@ -60,10 +60,8 @@ def main():
         if r.returncode == 2: detail = r.stderr[-600:]
         print("%-4s %-40s %-10s %5.1fs %s" % (m["id"], m["name"], st, dt, detail), flush=True)
         results.append((m["id"], m["name"], st, dt))
-        sh("git", "-C", VERIF, "clean", "-fq", "replays")
     sh("git", "-C", WT, "checkout", "--", ".")
     # evidence files were rewritten by mutant runs; they belong to the scratch tree, restore from git
-    sh("git", "-C", VERIF, "checkout", "--", "evidence")
     bad = [r for r in results if r[2] != "killed"]
     print("%d mutants, %d killed" % (len(results), len(results) - len(bad)))
     return 1 if bad else 0
